@@ -61,6 +61,8 @@ if __name__ == '__main__':
         old = {r['name']: r for r in json.load(open(mj))}
         for r in results:
             old[r['name']] = r
+        present = {i[0] for i in items()}
+        old = {k: v for k, v in old.items() if k in present}      # a change that was refiled or removed has no row
         results = [old[k] for k in sorted(old, key=lambda n: (n[0] != 'C', n))]
     json.dump(results, open(mj, 'w'), indent=1)
     with open(os.path.join(ROOT, 'seeded', 'MATRIX.md'), 'w') as f:
